@@ -395,7 +395,7 @@ def apply_contract(ex: Executor, c: Contract, fi: FuncInfo, args, kwargs, fr: Fr
 
 def _apply_type_hints(ex, c: Contract, nf: Frame):
     for name, sv in list(nf.locals.items()):
-        if name in c.types and sv.term is not None:
+        if name in c.types and sv.term is not None and (sv.ty is None or sv.ty.name in ("any",)):
             t = parse_ann(c.types[name])
             nf.locals[name] = SV(sv.term, t, sv.meta)
 
@@ -428,6 +428,7 @@ def verify_function(repo: Repo, contracts: dict, target: str, prop_id: str, max_
     c: Contract = contracts[target]
     rep = FunctionReport(target)
     t0 = time.time()
+    target = c.target
     try:
         fi = repo.func(target)
     except KeyError as e:
@@ -441,6 +442,9 @@ def verify_function(repo: Repo, contracts: dict, target: str, prop_id: str, max_
     Frame.top_contract = c
     ex.spec_funcs = spec_funcs or {}
     ex.bounded_used = False
+    ex.lenient = bool(c.options.get("lenient"))
+    ex.protect = c.options.get("protect")
+    ex.protect_hook = c.options.get("protect_hook")
     work = [[]]
     try:
         while work:
@@ -510,6 +514,7 @@ def _setup_entry(ex: Executor, c: Contract, fi: FuncInfo, fr: Frame):
 
 def _run_path(ex: Executor, c: Contract, fi: FuncInfo, fr: Frame, short: str, rep: FunctionReport):
     st = ex.st
+    ex.top_frame = fr
     _setup_entry(ex, c, fi, fr)
     if not st.feasible():
         st.obligations.append(Obligation(f"{ex.prop_id}/{short}/vacuity:requires-satisfiable", "vacuity", "failed",
